@@ -8,44 +8,68 @@
 //!
 //! `case <id> pw=<device passcode>`
 //! ops: `open t=<secs>` | `revoke` | `tick ms=<n>` | `poll`
-//!      `pbkdf i=<k> [req=good|malformed|pid]`            first message of initiator k (new exchange)
-//!      `pake1 i=<k> pw=<n> [pt=valid|zero|offcurve|short]`
-//!      `pake3 i=<k> [ca=good|flip|zero|short|replay:<j>]`   (replay: the cA initiator j computed)
+//!      `openenh pw=<n> t=<secs> sl=<salt bytes> it=<iterations> disc=<discriminator>`   `Pase::open_comm_window` with the
+//!                                                          verifier of passcode n for that salt / iteration count
+//!      `cmdopen pw=<n> t=<secs> sl=<salt bytes> it=<iterations> disc=<d> [vl=<verifier bytes>]`   the same through the real
+//!                                                          `AdminCommHandler::handle_open_commissioning_window` (parameter checks)
+//!      `cmdbasic t=<secs>`                                 `AdminCommHandler::handle_open_basic_commissioning_window`
+//!      `pbkdf i=<k> [req=good|malformed|pid] [sai=<ms>] [sii=<ms>] [sat=<ms>] [dup=1]`   first message of initiator k (new exchange)
+//!      `pake1 i=<k> pw=<n> [pt=valid|zero|offcurve|short|inf1|comp|long|comp65|hybrid|xgep|pfield|gen|m|n|neg] [dup=1]`
+//!      `pake3 i=<k> [ca=good|flip|zero|short|replay:<j>] [dup=1]`   (replay: the cA initiator j computed)
 //!      `abort i=<k>`                                       status report InvalidParameter instead of the next message
+//!      `resend i=<k> m=<0|1|2>`                            the identical datagram of k's PBKDFParamRequest / Pake1 / Pake3 once more
+//!      `fill n=<k> pin=<0|1>` | `unfill`                   other sessions in the device's table (with / without an active exchange)
+//!      `rxto pa=<ms> pi=<ms> pt=<ms> la=<ms>`              `Session::rx_timeout_ms` for these MRP parameters (pure)
+//! `dup=1`: the simulated network delivers the datagram twice.
 //! `case <id> pw=<n> tamper=<k>:<bit>`: additionally exactly one bit of the *payload* (the TLV handshake
 //!      message behind the two headers) of the k-th payload-carrying datagram towards the device - or of the
 //!      PBKDFParamResponse - is flipped in flight (bit index modulo the payload length); such cases are checked
 //!      by the oracle only (no session may result).
-//! every answer: `t=<virtual ms at the op> <reply> | w=<0|1> f=<failures|-> m=<0|1> s=<PASE sessions> adv=<0|1>`
+//! every answer: `t=<virtual ms at the op> <reply> | w=<0|1> f=<failures|-> m=<0|1> s=<PASE sessions> adv=<0|1>
+//!               tab=F:<n>,Fp:<n>,U:<n>,Up:<n>,R:<n>,P:<n> enh=<0|1|-> disc=<n|-> ev=<classes of evicted sessions|->`
+//! (`tab`: the device's session table by class - other sessions without / with an exchange, unsecured sessions
+//! without / with an exchange, reserved slots, PASE sessions); a `pbkdfresp` reply carries ` it=<iterations>
+//! sl=<salt bytes> rxto=<receive timeout of the responder's exchange, ms>`.
 use crate::proto::{parse_cases, Case, Out};
-use crate::rng::Rng;
-use crate::simnet::{addr_of, now_ms, run_sim, Perfect, SimEnd, SimNet};
+use crate::simnet::{addr_of, now_ms, run_sim, Policy, SimEnd, SimNet, Verdict};
 use crate::Args;
 
-use std::cell::RefCell;
+use std::cell::{Cell, RefCell};
 use std::collections::HashMap;
+use std::rc::Rc;
 
 use embassy_futures::select::{select, select4, Either};
 use embassy_time::{Duration, Timer};
+
+use rand_core::RngCore;
 
 use rs_matter::crypto::{test_only_crypto, Crypto, EC_POINT_ZEROED, HMAC_HASH_ZEROED};
 use rs_matter::dm::devices::test::{TEST_DEV_ATT, TEST_DEV_DET};
 use rs_matter::error::{Error, ErrorCode};
 use rs_matter::respond::Responder;
-use rs_matter::sc::pase::verif_spake2p::{ProverContext, Spake2P};
+use rs_matter::sc::pase::verif_spake2p::{ProverContext, Spake2P, Spake2pVerifierStr};
 use rs_matter::sc::pase::{verif_parse_pbkdf_resp, verif_parse_pake2, Spake2pVerifierPassword, Spake2pVerifierPasswordRef};
 use rs_matter::sc::{sc_write, OpCode, SCStatusCodes, SecureChannel, StatusReport, PROTO_ID_SECURE_CHANNEL};
 use rs_matter::tlv::{OctetStr, TLVTag, TLVWrite, ToTLV};
 use rs_matter::transport::exchange::{Exchange, MessageMeta};
-use rs_matter::transport::network::NoNetwork;
-use rs_matter::transport::session::SessionMode;
-use rs_matter::transport::packet::PacketHdr;
-use rs_matter::utils::storage::{ParseBuf, ReadBuf};
 use rs_matter::transport::network::MatterLocalService;
+use rs_matter::transport::network::NoNetwork;
+use rs_matter::transport::packet::PacketHdr;
+use rs_matter::transport::session::{Session, SessionMode};
+use rs_matter::utils::storage::{ParseBuf, ReadBuf};
 use rs_matter::BasicCommData;
 use rs_matter::Matter;
 
+#[path = "c02_gen.rs"]
+mod c02_gen;
+#[path = "c02_cmd.rs"]
+mod c02_cmd;
+
 const REPLY_WAIT_MS: u64 = 1500;
+/// address of a node that does not exist: peer of the filler sessions
+const NOWHERE: usize = 7;
+/// sender of the stray datagrams
+const STRAY: usize = 5;
 
 fn kv(op: &str) -> HashMap<String, String> {
     let mut m = HashMap::new();
@@ -73,27 +97,100 @@ struct Init<'a> {
     pb: Vec<u8>,
     cb: Vec<u8>,
     ca: Option<Vec<u8>>,
+    /// the datagrams that carried this initiator's PBKDFParamRequest (0), Pake1 (1), Pake3 (2)
+    sent: HashMap<u64, Vec<u8>>,
 }
 
-fn observe(device: &Matter) -> String {
+/// per-case harness state shared between the script and the network policy
+struct Shared {
+    /// opcode of the next initiator datagram the network shall deliver twice
+    dup_opcode: Cell<Option<u8>>,
+    /// ids of the filler sessions in the device's table
+    fillers: RefCell<Vec<u32>>,
+}
+
+/// perfect delivery, except that one chosen datagram is duplicated
+struct DupPolicy(Rc<Shared>);
+impl Policy for DupPolicy {
+    fn decide(&mut self, from: usize, _to: usize, bytes: &[u8], _seq: u64) -> Verdict {
+        if from == 1 {
+            if let Some(want) = self.0.dup_opcode.get() {
+                if let Some((start, opcode)) = payload_start(bytes) {
+                    if opcode == want && start < bytes.len() {
+                        self.0.dup_opcode.set(None);
+                        return Verdict::Dup;
+                    }
+                }
+            }
+        }
+        Verdict::Deliver
+    }
+}
+
+/// the device's session table: `(id, class)` with class F / Fp / U / Up / R / P
+fn table(device: &Matter, sh: &Shared) -> Vec<(u32, &'static str)> {
+    let fillers = sh.fillers.borrow();
+    device.with_state(|st| {
+        st.verif_sessions_mut()
+            .iter()
+            .map(|s| {
+                let busy = s.verif_exchanges().iter().any(|e| e.is_some());
+                let (_, reserved) = s.verif_flags();
+                let class = if fillers.contains(&s.id()) {
+                    if busy {
+                        "Fp"
+                    } else {
+                        "F"
+                    }
+                } else if reserved {
+                    "R"
+                } else if matches!(s.get_session_mode(), SessionMode::Pase { .. }) {
+                    "P"
+                } else if busy {
+                    "Up"
+                } else {
+                    "U"
+                };
+                (s.id(), class)
+            })
+            .collect()
+    })
+}
+
+fn observe(device: &Matter, sh: &Shared) -> String {
     let (w, f, m) = device.with_state(|st| st.verif_pase().verif_state());
-    let sessions = device.with_state(|st| {
-        st.verif_sessions_mut().iter().filter(|s| matches!(s.get_session_mode(), SessionMode::Pase { .. })).count()
-    });
+    let tab = table(device, sh);
+    let count = |c: &str| tab.iter().filter(|(_, k)| *k == c).count();
+    let sessions = count("P");
     let mut adv = 0;
+    let mut enh = "-".to_string();
+    let mut disc = "-".to_string();
     let _ = device.mdns_services(|s| {
-        if matches!(s, MatterLocalService::Commissionable { .. }) {
+        if let MatterLocalService::Commissionable { discriminator, enhanced, .. } = s {
             adv += 1;
+            enh = (enhanced as u8).to_string();
+            // the discriminator of a basic window is the device's own (fixed per run): only the supplied one is reported
+            if enhanced {
+                disc = discriminator.to_string();
+            }
         }
         Ok(())
     });
     format!(
-        "w={} f={} m={} s={} adv={}",
+        "w={} f={} m={} s={} adv={} tab=F:{},Fp:{},U:{},Up:{},R:{},P:{} enh={} disc={}",
         w as u8,
         f.map(|x| x.to_string()).unwrap_or("-".into()),
         m as u8,
         sessions,
-        adv
+        adv,
+        count("F"),
+        count("Fp"),
+        count("U"),
+        count("Up"),
+        count("R"),
+        count("P"),
+        enh,
+        disc
     )
 }
 
@@ -122,22 +219,206 @@ fn describe(op: u8, payload: &[u8]) -> String {
         "pbkdfresp".into()
     } else if op == OpCode::PASEPake2 as u8 {
         "pake2".into()
+    } else if op == OpCode::MRPStandAloneAck as u8 {
+        "ack".into()
     } else {
         format!("op:{:02x}", op)
     }
 }
 
-async fn run_script<'a, C: Crypto>(device: &'a Matter<'a>, ctrl: &'a Matter<'a>, crypto: &'a C, ops: &[String], outs: &RefCell<Vec<String>>, notes: &RefCell<Vec<String>>) -> Result<(), Error> {
+/// P-256 constants for the hand-made prover shares
+const P256_P: [u8; 32] = [
+    0xff, 0xff, 0xff, 0xff, 0x00, 0x00, 0x00, 0x01, 0x00, 0x00, 0x00, 0x00, 0x00, 0x00, 0x00, 0x00, 0x00, 0x00, 0x00, 0x00, 0xff, 0xff,
+    0xff, 0xff, 0xff, 0xff, 0xff, 0xff, 0xff, 0xff, 0xff, 0xff,
+];
+const P256_G: [u8; 65] = [
+    0x04, 0x6b, 0x17, 0xd1, 0xf2, 0xe1, 0x2c, 0x42, 0x47, 0xf8, 0xbc, 0xe6, 0xe5, 0x63, 0xa4, 0x40, 0xf2, 0x77, 0x03, 0x7d, 0x81, 0x2d,
+    0xeb, 0x33, 0xa0, 0xf4, 0xa1, 0x39, 0x45, 0xd8, 0x98, 0xc2, 0x96, 0x4f, 0xe3, 0x42, 0xe2, 0xfe, 0x1a, 0x7f, 0x9b, 0x8e, 0xe7, 0xeb,
+    0x4a, 0x7c, 0x0f, 0x9e, 0x16, 0x2b, 0xce, 0x33, 0x57, 0x6b, 0x31, 0x5e, 0xce, 0xcb, 0xb6, 0x40, 0x68, 0x37, 0xbf, 0x51, 0xf5,
+];
+/// SPAKE2+ `M` and `N` (RFC 9383, as in `spake2p.rs`)
+const SPAKE_M: [u8; 65] = [
+    0x04, 0x88, 0x6e, 0x2f, 0x97, 0xac, 0xe4, 0x6e, 0x55, 0xba, 0x9d, 0xd7, 0x24, 0x25, 0x79, 0xf2, 0x99, 0x3b, 0x64, 0xe1, 0x6e, 0xf3,
+    0xdc, 0xab, 0x95, 0xaf, 0xd4, 0x97, 0x33, 0x3d, 0x8f, 0xa1, 0x2f, 0x5f, 0xf3, 0x55, 0x16, 0x3e, 0x43, 0xce, 0x22, 0x4e, 0x0b, 0x0e,
+    0x65, 0xff, 0x02, 0xac, 0x8e, 0x5c, 0x7b, 0xe0, 0x94, 0x19, 0xc7, 0x85, 0xe0, 0xca, 0x54, 0x7d, 0x55, 0xa1, 0x2e, 0x2d, 0x20,
+];
+const SPAKE_N: [u8; 65] = [
+    0x04, 0xd8, 0xbb, 0xd6, 0xc6, 0x39, 0xc6, 0x29, 0x37, 0xb0, 0x4d, 0x99, 0x7f, 0x38, 0xc3, 0x77, 0x07, 0x19, 0xc6, 0x29, 0xd7, 0x01,
+    0x4d, 0x49, 0xa2, 0x4b, 0x4f, 0x98, 0xba, 0xa1, 0x29, 0x2b, 0x49, 0x07, 0xd6, 0x0a, 0xa6, 0xbf, 0xad, 0xe4, 0x50, 0x08, 0xa6, 0x36,
+    0x33, 0x7f, 0x51, 0x68, 0xc6, 0x4d, 0x9b, 0xd3, 0x60, 0x34, 0x80, 0x8c, 0xd5, 0x64, 0x49, 0x0b, 0x1e, 0x65, 0x6e, 0xdb, 0xe7,
+];
+
+/// `p - y` for a 32-byte big-endian `y < p`
+fn p_minus(y: &[u8]) -> Vec<u8> {
+    let mut out = vec![0u8; 32];
+    let mut borrow = 0i32;
+    for i in (0..32).rev() {
+        let mut d = P256_P[i] as i32 - y[i] as i32 - borrow;
+        if d < 0 {
+            d += 256;
+            borrow = 1;
+        } else {
+            borrow = 0;
+        }
+        out[i] = d as u8;
+    }
+    out
+}
+
+/// what goes on the wire as `pA` for the real share `pa` (65 bytes, uncompressed)
+fn wire_share(kind: &str, pa: &[u8]) -> Vec<u8> {
+    let mut wire = pa.to_vec();
+    match kind {
+        "zero" => wire = vec![0u8; 65],
+        "offcurve" => wire[64] ^= 1,
+        "short" => wire.truncate(33),
+        // the one-byte SEC1 encoding of the point at infinity
+        "inf1" => wire = vec![0u8],
+        // the proper compressed form of the real share (33 bytes)
+        "comp" => {
+            wire = vec![0x02 | (pa[64] & 1)];
+            wire.extend_from_slice(&pa[1..33]);
+        }
+        "long" => wire.push(0),
+        // compressed tag on a 65-byte string
+        "comp65" => {
+            wire[0] = 0x02 | (pa[64] & 1);
+            for b in wire[33..].iter_mut() {
+                *b = 0;
+            }
+        }
+        // hybrid encoding (tag 6 / 7) of the real share
+        "hybrid" => wire[0] = 0x06 | (pa[64] & 1),
+        // x >= p
+        "xgep" => {
+            for b in wire[1..33].iter_mut() {
+                *b = 0xff;
+            }
+        }
+        // x = p (== 0 mod p), y = 0
+        "pfield" => {
+            wire[1..33].copy_from_slice(&P256_P);
+            for b in wire[33..].iter_mut() {
+                *b = 0;
+            }
+        }
+        // valid points that are not the prover's share
+        "gen" => wire = P256_G.to_vec(),
+        "m" => wire = SPAKE_M.to_vec(),
+        "n" => wire = SPAKE_N.to_vec(),
+        "neg" => {
+            let ny = p_minus(&pa[33..65]);
+            wire[33..].copy_from_slice(&ny);
+        }
+        _ => {}
+    }
+    wire
+}
+
+/// deterministic salt of `n` bytes for the enhanced window of passcode `pw`
+fn enh_salt(pw: u64, n: usize) -> Vec<u8> {
+    (0..n).map(|i| (pw as u8).wrapping_mul(7).wrapping_add(i as u8).wrapping_mul(13) ^ 0x5a).collect()
+}
+
+async fn run_script<'a, C: Crypto>(
+    device: &'a Matter<'a>,
+    ctrl: &'a Matter<'a>,
+    crypto: &'a C,
+    net: &SimNet,
+    sh: &Shared,
+    ops: &[String],
+    outs: &RefCell<Vec<String>>,
+    notes: &RefCell<Vec<String>>,
+) -> Result<(), Error> {
     let mut inits: HashMap<u64, Init<'a>> = HashMap::new();
     for op in ops {
         let m = kv(op);
         let t0 = now_ms();
         let head = op.split_whitespace().next().unwrap_or("");
+        let before = table(device, sh);
+        let log0 = net.log_len();
+        let mut harness_removed: Vec<u32> = Vec::new();
+        if m.get("dup").map(|d| d == "1").unwrap_or(false) {
+            let opcode = match head {
+                "pbkdf" => Some(OpCode::PBKDFParamRequest as u8),
+                "pake1" => Some(OpCode::PASEPake1 as u8),
+                "pake3" => Some(OpCode::PASEPake3 as u8),
+                _ => None,
+            };
+            sh.dup_opcode.set(opcode);
+        }
         let res: String = match head {
             "open" => match device.open_basic_comm_window(num(&m, "t") as u16, crypto, &()) {
                 Ok(()) => "ok".into(),
                 Err(e) => format!("err:{:?}", e.code()),
             },
+            "openenh" => {
+                let pw = (num(&m, "pw") as u32).to_le_bytes();
+                let salt = enh_salt(num(&m, "pw"), num(&m, "sl") as usize);
+                let it = num(&m, "it") as u32;
+                let mut verifier = Spake2pVerifierStr::new();
+                Spake2P::verif_compute_verifier(crypto, Spake2pVerifierPasswordRef::new(&pw), it, &salt, &mut verifier)?;
+                let mdns_id = crypto.rand()?.next_u64();
+                match device.with_state(|st| {
+                    st.verif_pase().open_comm_window(
+                        mdns_id,
+                        verifier.reference(),
+                        &salt,
+                        it,
+                        num(&m, "disc") as u16,
+                        num(&m, "t") as u16,
+                        None,
+                        || {},
+                        |_, _| {},
+                    )
+                }) {
+                    Ok(()) => "ok".into(),
+                    Err(e) => format!("err:{:?}", e.code()),
+                }
+            }
+            "cmdopen" | "cmdbasic" => {
+                // the command arrives on an exchange of a session that is not a CASE session (no opener); session and
+                // exchange exist only for the duration of the call
+                let slot = device.with_state(|st| {
+                    st.verif_sessions_mut().add(9, false, addr_of(NOWHERE), None, &TEST_DEV_DET).ok().and_then(|sess| {
+                        let id = sess.id();
+                        sess.verif_add_exch(39_999, true).map(|idx| (id, idx))
+                    })
+                });
+                match slot {
+                    None => "skip".into(),
+                    Some((sid, idx)) => {
+                        let pw = (num(&m, "pw") as u32).to_le_bytes();
+                        let salt = enh_salt(num(&m, "pw"), num(&m, "sl") as usize);
+                        let it = num(&m, "it") as u32;
+                        let mut verifier = Spake2pVerifierStr::new();
+                        if head == "cmdopen" {
+                            // the verifier is computed for the requested parameters; for an iteration count the handler
+                            // refuses anyway (beyond 100000, or 0) any verifier will do
+                            let vit = if it == 0 || it > 100_000 { 1000 } else { it };
+                            Spake2P::verif_compute_verifier(crypto, Spake2pVerifierPasswordRef::new(&pw), vit, &salt, &mut verifier)?;
+                        }
+                        let mut vbytes = verifier.access().to_vec();
+                        vbytes.resize(if m.contains_key("vl") { num(&m, "vl") as usize } else { 97 }, 0x11);
+                        let r = {
+                            let ex = Exchange::verif_new(device, sid, idx);
+                            let cmd = if head == "cmdopen" {
+                                c02_cmd::Cmd::Open { timeout: num(&m, "t") as u16, verifier: &vbytes, discriminator: num(&m, "disc") as u16, iterations: it, salt: &salt }
+                            } else {
+                                c02_cmd::Cmd::OpenBasic { timeout: num(&m, "t") as u16 }
+                            };
+                            let r = c02_cmd::invoke(device, crypto, &ex, &cmd);
+                            core::mem::forget(ex);
+                            r
+                        };
+                        device.with_state(|st| {
+                            st.verif_sessions_mut().remove(sid);
+                        });
+                        harness_removed.push(sid);
+                        r
+                    }
+                }
+            }
             "revoke" => match device.close_comm_window(&()) {
                 Ok(_) => "ok".into(),
                 Err(e) => format!("err:{:?}", e.code()),
@@ -150,8 +431,53 @@ async fn run_script<'a, C: Crypto>(device: &'a Matter<'a>, ctrl: &'a Matter<'a>,
                 let _ = device.with_state(|st| st.verif_pase().check_comm_window_timeout(|| {}, |_, _| {}));
                 "-".into()
             }
+            "fill" => {
+                let n = num(&m, "n");
+                let pin = num(&m, "pin") == 1;
+                let mut added = 0;
+                device.with_state(|st| {
+                    for j in 0..n {
+                        let id = match st.verif_sessions_mut().add(j as u32, false, addr_of(NOWHERE), None, &TEST_DEV_DET) {
+                            Ok(sess) => {
+                                if pin {
+                                    // an initiator-role exchange nobody owns: it only pins the session (nothing accepts it)
+                                    let _ = sess.verif_add_exch(40_000 + j as u16, true);
+                                }
+                                sess.id()
+                            }
+                            Err(_) => break,
+                        };
+                        sh.fillers.borrow_mut().push(id);
+                        added += 1;
+                    }
+                });
+                format!("ok:{}", added)
+            }
+            "unfill" => {
+                let ids: Vec<u32> = sh.fillers.borrow_mut().drain(..).collect();
+                device.with_state(|st| {
+                    for id in &ids {
+                        if st.verif_sessions_mut().remove(*id).is_some() {
+                            harness_removed.push(*id);
+                        }
+                    }
+                });
+                "ok".into()
+            }
+            "rxto" => {
+                let s = Session::new(1, 0, false, addr_of(1), None, num(&m, "pa") as u32, num(&m, "pi") as u32, num(&m, "pt") as u16);
+                format!("rxto={}", s.verif_rx_timeout_ms(num(&m, "la") as u32))
+            }
             "pbkdf" => {
                 let k = num(&m, "i");
+                // the controller is only a tool: finished sessions are dropped silently, so that it never has to
+                // evict one itself (which would close the device's counterpart behind the model's back)
+                ctrl.with_state(|st| {
+                    let ids: Vec<u32> = st.verif_sessions_mut().iter().filter(|s| s.verif_exchanges().iter().all(|e| e.is_none())).map(|s| s.id()).collect();
+                    for id in ids {
+                        st.verif_sessions_mut().remove(id);
+                    }
+                });
                 let mut ex = Exchange::initiate_plaintext(ctrl, crypto, addr_of(0)).await?;
                 let local_sessid = 100 + k as u16;
                 let kind = m.get("req").cloned().unwrap_or("good".into());
@@ -159,6 +485,7 @@ async fn run_script<'a, C: Crypto>(device: &'a Matter<'a>, ctrl: &'a Matter<'a>,
                 for (i, b) in rnd.iter_mut().enumerate() {
                     *b = (k as u8).wrapping_mul(31).wrapping_add(i as u8);
                 }
+                let params: Vec<(u8, u64)> = [("sii", 1u8), ("sai", 2u8), ("sat", 3u8)].iter().filter(|(key, _)| m.contains_key(*key)).map(|(key, tag)| (*tag, num(&m, key))).collect();
                 let mut req: Vec<u8> = Vec::new();
                 ex.send_with(|_, wb| {
                     if kind == "malformed" {
@@ -172,29 +499,52 @@ async fn run_script<'a, C: Crypto>(device: &'a Matter<'a>, ctrl: &'a Matter<'a>,
                         local_sessid.to_tlv(&TLVTag::Context(2), &mut *wb)?;
                         (if kind == "pid" { 1u16 } else { 0u16 }).to_tlv(&TLVTag::Context(3), &mut *wb)?;
                         false.to_tlv(&TLVTag::Context(4), &mut *wb)?;
+                        if !params.is_empty() {
+                            wb.start_struct(&TLVTag::Context(5))?;
+                            for (tag, v) in &params {
+                                if *tag == 3 {
+                                    (*v as u16).to_tlv(&TLVTag::Context(*tag), &mut *wb)?;
+                                } else {
+                                    (*v as u32).to_tlv(&TLVTag::Context(*tag), &mut *wb)?;
+                                }
+                            }
+                            wb.end_container()?;
+                        }
                         wb.end_container()?;
                     }
                     req = wb.as_slice().to_vec();
                     Ok(Some(MessageMeta::new(PROTO_ID_SECURE_CHANNEL, OpCode::PBKDFParamRequest as u8, true)))
                 })
                 .await?;
-                let mut init = Init { ex: None, spake: Spake2P::new(), req, local_sessid, salt: vec![], iterations: 0, pa: vec![], prover: None, pb: vec![], cb: vec![], ca: None };
+                let mut init = Init { ex: None, spake: Spake2P::new(), req, local_sessid, salt: vec![], iterations: 0, pa: vec![], prover: None, pb: vec![], cb: vec![], ca: None, sent: HashMap::new() };
                 let r = reply(&mut ex).await;
                 let s = match r {
                     Ok((opc, payload)) => {
+                        let mut extra = String::new();
                         if opc == OpCode::PBKDFParamResponse as u8 {
-                            if let Ok((salt, iterations)) = verif_parse_pbkdf_resp(&payload).and_then(|(s, i)| if i > 100_000 { Err(ErrorCode::Invalid.into()) } else { Ok((s, i)) }) {
+                            if let Ok((salt, iterations)) = verif_parse_pbkdf_resp(&payload) {
                                 init.salt = salt.to_vec();
                                 init.iterations = iterations;
                                 let ctx = init.spake.start_context(crypto, init.local_sessid, 0, &init.req)?;
                                 init.spake.finish_context::<C>(ctx, &payload)?;
+                                // the receive timeout of the responder's exchange: the newest unsecured session with an exchange
+                                let rxto = device.with_state(|st| {
+                                    let fillers = sh.fillers.borrow();
+                                    st.verif_sessions_mut()
+                                        .iter()
+                                        .filter(|s| !fillers.contains(&s.id()) && matches!(s.get_session_mode(), SessionMode::PlainText) && !s.verif_flags().1 && s.verif_exchanges().iter().any(|e| e.is_some()))
+                                        .max_by_key(|s| s.id())
+                                        .map(|s| s.verif_rx_timeout_ms(TEST_DEV_DET.sai.unwrap_or(300)))
+                                });
+                                extra = format!(" it={} sl={} rxto={}", iterations, salt.len(), rxto.map(|x| x.to_string()).unwrap_or("-".into()));
                             }
                         }
-                        describe(opc, &payload)
+                        format!("{}{}", describe(opc, &payload), extra)
                     }
                     Err(e) => e,
                 };
-                init.ex = Some(ex);
+                // an initiator that got no PBKDFParamResponse has nothing more to say: its exchange is closed
+                init.ex = if s.starts_with("pbkdfresp") { Some(ex) } else { None };
                 inits.insert(k, init);
                 s
             }
@@ -207,13 +557,7 @@ async fn run_script<'a, C: Crypto>(device: &'a Matter<'a>, ctrl: &'a Matter<'a>,
                         let prover = init.spake.setup_prover(crypto, Spake2pVerifierPasswordRef::new(&pw), &init.salt, init.iterations, &mut pa)?;
                         init.prover = Some(prover);
                         init.pa = pa.access().to_vec();
-                        let mut wire = init.pa.clone();
-                        match m.get("pt").map(|s| s.as_str()).unwrap_or("valid") {
-                            "zero" => wire = vec![0u8; 65],
-                            "offcurve" => wire[64] ^= 1,
-                            "short" => wire.truncate(33),
-                            _ => {}
-                        }
+                        let wire = wire_share(m.get("pt").map(|s| s.as_str()).unwrap_or("valid"), &init.pa);
                         let ex = init.ex.as_mut().unwrap();
                         ex.send_with(|_, wb| {
                             wb.start_struct(&TLVTag::Anonymous)?;
@@ -301,11 +645,74 @@ async fn run_script<'a, C: Crypto>(device: &'a Matter<'a>, ctrl: &'a Matter<'a>,
                     _ => "skip".into(),
                 }
             }
+            "resend" => {
+                let k = num(&m, "i");
+                match inits.get(&k).and_then(|i| i.sent.get(&num(&m, "m"))) {
+                    Some(bytes) => {
+                        let at = net.log_len();
+                        net.inject(1, 0, bytes);
+                        Timer::after(Duration::from_millis(30)).await;
+                        // what the device sent back in answer to it: datagrams it has not sent before
+                        let log = net.log();
+                        let mut seen: Vec<String> = Vec::new();
+                        for (j, e) in log.iter().enumerate().skip(at) {
+                            if e.from != 0 || log[..j].iter().any(|o| o.from == 0 && o.bytes == e.bytes) {
+                                continue;
+                            }
+                            if let Some((start, opcode)) = payload_start(&e.bytes) {
+                                let d = describe(opcode, &e.bytes[start..]);
+                                if !seen.contains(&d) {
+                                    seen.push(d);
+                                }
+                            }
+                        }
+                        if seen.is_empty() {
+                            "silent".into()
+                        } else {
+                            seen.join("+")
+                        }
+                    }
+                    None => "skip".into(),
+                }
+            }
             _ => "skip".into(),
         };
+        sh.dup_opcode.set(None);
+        // A stray one-byte datagram from nowhere. `Transport::accept_if` evaluates its predicate on the headers of
+        // the LAST received datagram whenever it is polled, which refreshes `last_use` of that datagram's session;
+        // on the virtual clock a poll and the next arrival share one instant, and `get_session_for_eviction` skips a
+        // session used in that very instant. With the stray datagram the stale headers belong to no session.
+        net.inject(STRAY, 0, &[0u8]);
         // let the device finish what the message triggered
         Timer::after(Duration::from_millis(20)).await;
-        let mut line = format!("t={} {} | {}", t0, res, observe(device));
+        // remember the datagram that carried this handshake message (for `resend`)
+        let want = match head {
+            "pbkdf" => Some((0u64, OpCode::PBKDFParamRequest as u8)),
+            "pake1" => Some((1, OpCode::PASEPake1 as u8)),
+            "pake3" => Some((2, OpCode::PASEPake3 as u8)),
+            _ => None,
+        };
+        if let (Some((idx, opcode)), Some(init)) = (want, inits.get_mut(&num(&m, "i"))) {
+            let log = net.log();
+            if let Some(e) = log.iter().skip(log0).find(|e| e.from == 1 && payload_start(&e.bytes).map(|(st, o)| o == opcode && st < e.bytes.len()).unwrap_or(false)) {
+                init.sent.insert(idx, e.bytes.clone());
+            }
+        }
+        // sessions that left the table without the harness or a dropped reservation having removed them: evicted
+        let after = table(device, sh);
+        let mut ev: Vec<&str> = before
+            .iter()
+            .filter(|(id, class)| *class != "R" && !harness_removed.contains(id) && !after.iter().any(|(i2, _)| i2 == id))
+            .map(|(_, class)| match *class {
+                "F" | "Fp" => "F",
+                "U" | "Up" => "U",
+                other => other,
+            })
+            .collect();
+        ev.sort();
+        // an evicted filler is no longer the harness' to remove
+        sh.fillers.borrow_mut().retain(|id| after.iter().any(|(i2, _)| i2 == id));
+        let mut line = format!("t={} {} | {} ev={}", t0, res, observe(device, sh), if ev.is_empty() { "-".to_string() } else { ev.join(",") });
         for n in notes.borrow_mut().drain(..) {
             line.push(' ');
             line.push_str(&n);
@@ -333,7 +740,8 @@ fn run_case(out: &mut Out, case: &Case) {
     let m = kv(&case.kind);
     let pw = (num(&m, "pw") as u32).to_le_bytes();
     let comm = BasicCommData { password: Spake2pVerifierPassword::new_from_ref(Spake2pVerifierPasswordRef::new(&pw)), discriminator: 3840 };
-    let net = SimNet::new(2, Box::new(Perfect));
+    let sh = Rc::new(Shared { dup_opcode: Cell::new(None), fillers: RefCell::new(Vec::new()) });
+    let net = SimNet::new(2, Box::new(DupPolicy(sh.clone())));
     let device = Matter::new(&TEST_DEV_DET, comm.clone(), &TEST_DEV_ATT, 0);
     let ctrl = Matter::new(&TEST_DEV_DET, comm, &TEST_DEV_ATT, 0);
     let crypto = test_only_crypto();
@@ -372,7 +780,7 @@ fn run_case(out: &mut Out, case: &Case) {
         }));
     }
     let end = {
-        let script = run_script(&device, &ctrl, &crypto, &case.ops, &outs, &notes);
+        let script = run_script(&device, &ctrl, &crypto, &net, &sh, &case.ops, &outs, &notes);
         let all = async {
             match select4(device.run(&crypto, &ds, &ds, NoNetwork), responder.run::<4>(), ctrl.run(&crypto, &cs, &cs, NoNetwork), script).await {
                 embassy_futures::select::Either4::Fourth(r) => r,
@@ -385,7 +793,12 @@ fn run_case(out: &mut Out, case: &Case) {
     for (i, op) in case.ops.iter().enumerate() {
         match outs.get(i) {
             Some(o) => {
-                out.stat(&format!("reply_{}", o.split_whitespace().nth(1).unwrap_or("?").split(':').next().unwrap_or("?")), 1);
+                out.stat(&format!("reply_{}", o.split_whitespace().nth(1).unwrap_or("?").split(':').next().unwrap_or("?").split('=').next().unwrap_or("?")), 1);
+                if let Some(ev) = o.split_whitespace().find_map(|w| w.strip_prefix("ev=")) {
+                    if ev != "-" {
+                        out.stat(&format!("evicted_{}", ev), 1);
+                    }
+                }
                 out.op(op, o)
             }
             None => out.op(
@@ -400,223 +813,28 @@ fn run_case(out: &mut Out, case: &Case) {
     }
 }
 
-// ------------------------------------------------------------------------------------------ generator
-
-fn gen_case(id: u64, r: &mut Rng, out: &mut Out) -> (String, Vec<String>) {
-    let dev_pw = *r.pick(&[20202021u64, 12345679, 1, 99999998]);
-    let mut ops: Vec<String> = Vec::new();
-    let scenario = id % 12;
-    out.stat(&format!("scenario_{}", scenario), 1);
-    let good_pw = dev_pw;
-    let bad_pw = if dev_pw == 1 { 2 } else { dev_pw - 1 };
-    let win = *r.pick(&[180u64, 181, 300, 900]);
-    match scenario {
-        0 => {
-            // the honest run, after an arbitrary part of the window's life
-            ops.push(format!("open t={}", win));
-            ops.push(format!("tick ms={}", r.below(win * 1000 - 5000)));
-            ops.push("pbkdf i=1".into());
-            ops.push(format!("pake1 i=1 pw={}", good_pw));
-            ops.push("pake3 i=1".into());
-        }
-        1 => {
-            // wrong passcodes until the window is revoked, then the right one
-            ops.push(format!("open t={}", win));
-            let n = r.range(18, 22);
-            for k in 0..n {
-                ops.push(format!("pbkdf i={}", k + 1));
-                ops.push(format!("pake1 i={} pw={}", k + 1, bad_pw));
-                ops.push(format!("pake3 i={}", k + 1));
-            }
-            ops.push("pbkdf i=50".into());
-            ops.push(format!("pake1 i=50 pw={}", good_pw));
-            ops.push("pake3 i=50".into());
-        }
-        2 => {
-            // the window is revoked between two steps of a valid handshake
-            let at = r.below(3);
-            ops.push(format!("open t={}", win));
-            if at == 0 {
-                ops.push("revoke".into());
-            }
-            ops.push("pbkdf i=1".into());
-            if at == 1 {
-                ops.push("revoke".into());
-            }
-            ops.push(format!("pake1 i=1 pw={}", good_pw));
-            if at == 2 {
-                ops.push("revoke".into());
-            }
-            ops.push("pake3 i=1".into());
-            out.stat(&format!("revoke_at_{}", at), 1);
-        }
-        3 => {
-            // the window expires between two steps (with / without the poll having run)
-            let at = r.below(3);
-            let poll = r.chance(1, 2);
-            ops.push(format!("open t={}", win));
-            let mut left = win * 1000;
-            let wait = |ops: &mut Vec<String>, until_after: bool, left: &mut u64| {
-                if until_after {
-                    ops.push(format!("tick ms={}", *left + 500));
-                    *left = 0;
-                    if poll {
-                        ops.push("poll".into());
-                    }
-                }
-            };
-            ops.push(format!("tick ms={}", win * 1000 - 20_000));
-            left -= win * 1000 - 20_000;
-            wait(&mut ops, at == 0, &mut left);
-            ops.push("pbkdf i=1".into());
-            wait(&mut ops, at == 1, &mut left);
-            ops.push(format!("pake1 i=1 pw={}", good_pw));
-            wait(&mut ops, at == 2, &mut left);
-            ops.push("pake3 i=1".into());
-            out.stat(&format!("expire_at_{}", at), 1);
-        }
-        4 => {
-            // a second initiator while one is in progress; then the first one goes on
-            ops.push(format!("open t={}", win));
-            ops.push("pbkdf i=1".into());
-            ops.push("pbkdf i=2".into());
-            ops.push(format!("pake1 i=1 pw={}", good_pw));
-            if r.chance(1, 2) {
-                ops.push("pbkdf i=3".into());
-            }
-            ops.push("pake3 i=1".into());
-            ops.push("pbkdf i=4".into());
-            ops.push(format!("pake1 i=4 pw={}", good_pw));
-            ops.push("pake3 i=4".into());
-        }
-        5 => {
-            // invalid prover shares
-            ops.push(format!("open t={}", win));
-            for (k, pt) in ["zero", "offcurve", "short"].iter().enumerate() {
-                ops.push(format!("pbkdf i={}", k + 1));
-                ops.push(format!("pake1 i={} pw={} pt={}", k + 1, good_pw, pt));
-                ops.push(format!("pake3 i={}", k + 1));
-            }
-        }
-        6 => {
-            // mutated confirmation values
-            ops.push(format!("open t={}", win));
-            for (k, ca) in ["flip", "zero", "short"].iter().enumerate() {
-                ops.push(format!("pbkdf i={}", k + 1));
-                ops.push(format!("pake1 i={} pw={}", k + 1, good_pw));
-                ops.push(format!("pake3 i={} ca={}", k + 1, ca));
-            }
-            ops.push("pbkdf i=9".into());
-            ops.push(format!("pake1 i=9 pw={}", good_pw));
-            ops.push("pake3 i=9".into());
-        }
-        7 => {
-            // a confirmation value replayed from an earlier (successful) handshake
-            ops.push(format!("open t={}", win));
-            ops.push("pbkdf i=1".into());
-            ops.push(format!("pake1 i=1 pw={}", good_pw));
-            ops.push("pake3 i=1".into());
-            ops.push("pbkdf i=2".into());
-            ops.push(format!("pake1 i=2 pw={}", good_pw));
-            ops.push("pake3 i=2 ca=replay:1".into());
-        }
-        8 => {
-            // malformed first messages, aborts
-            ops.push(format!("open t={}", win));
-            ops.push(format!("pbkdf i=1 req={}", r.pick(&["malformed", "pid"])));
-            ops.push("pbkdf i=2".into());
-            ops.push("abort i=2".into());
-            ops.push("pbkdf i=3".into());
-            ops.push(format!("pake1 i=3 pw={}", good_pw));
-            ops.push("abort i=3".into());
-            ops.push("pbkdf i=4".into());
-            ops.push(format!("pake1 i=4 pw={}", good_pw));
-            ops.push("pake3 i=4".into());
-        }
-        9 => {
-            // no window at all; window opened twice; bad timeouts
-            ops.push("pbkdf i=1".into());
-            ops.push(format!("open t={}", r.pick(&[0u64, 179, 901, 65535])));
-            ops.push(format!("open t={}", win));
-            ops.push(format!("open t={}", win));
-            ops.push("revoke".into());
-            ops.push("revoke".into());
-            ops.push("pbkdf i=2".into());
-        }
-        10 => {
-            // the in-progress marker expires (60 s) between two steps
-            ops.push(format!("open t={}", win));
-            ops.push("pbkdf i=1".into());
-            ops.push(format!("tick ms={}", r.range(61_000, 70_000)));
-            if r.chance(1, 2) {
-                ops.push("pbkdf i=2".into());
-            }
-            ops.push(format!("pake1 i=1 pw={}", good_pw));
-            ops.push("pake3 i=1".into());
-        }
-        _ => {
-            // free mix
-            ops.push(format!("open t={}", win));
-            let mut k = 0;
-            for _ in 0..r.range(2, 5) {
-                k += 1;
-                let pw = if r.chance(2, 3) { good_pw } else { bad_pw };
-                ops.push(format!("pbkdf i={}", k));
-                if r.chance(1, 6) {
-                    ops.push("revoke".into());
-                }
-                if r.chance(1, 6) {
-                    ops.push(format!("open t={}", win));
-                }
-                ops.push(format!("pake1 i={} pw={}", k, pw));
-                if r.chance(1, 6) {
-                    ops.push("revoke".into());
-                }
-                if r.chance(1, 6) {
-                    // never inside the band in which the responder's own receive timeout fires (~38 s)
-                    ops.push(format!("tick ms={}", if r.chance(2, 3) { r.range(1000, 25_000) } else { r.range(50_000, 70_000) }));
-                }
-                ops.push(format!("pake3 i={}{}", k, if r.chance(1, 5) { " ca=flip" } else { "" }));
-            }
-        }
-    }
-    (format!("pw={}", dev_pw), ops)
-}
-
-/// the honest handshake with one payload bit flipped in flight
-fn gen_tamper(r: &mut Rng, out: &mut Out) -> (String, Vec<String>) {
-    let dev_pw = *r.pick(&[20202021u64, 12345679]);
-    // payload-carrying datagrams in order: 1 PBKDFParamRequest, 2 PBKDFParamResponse, 3 Pake1, 4 Pake3
-    let k = r.range(1, 4);
-    let bit = r.below(4096);
-    out.stat(&format!("tamper_msg_{}", k), 1);
-    let ops = vec!["open t=300".to_string(), "pbkdf i=1".into(), format!("pake1 i=1 pw={}", dev_pw), "pake3 i=1".into()];
-    (format!("pw={} tamper={}:{}", dev_pw, k, bit), ops)
-}
-
-const RULE: &str = "a case = one device (real Matter + SecureChannel responder, passcode from {20202021,12345679,1,99999998}) and one controller on the simulated network with virtual time; the script plays 1-50 PASE initiators message by message with the real Spake2P prover; scenarios: honest run at an arbitrary point of the window's life, 18-22 wrong passcodes then the right one, revoke / expiry (with and without the 1 s poll) before PBKDFParamRequest / before Pake1 / before Pake3, concurrent second initiator, invalid prover shares (zero, off-curve, short), mutated / short / replayed confirmation values, malformed first messages and aborts, no window / double open / illegal timeouts, in-progress marker expiry, free mixes; non-trivial = the case contains at least one step that was refused or dropped and one that was answered; distinct = by operation list";
-
 pub fn gen(a: &Args) -> String {
-    let mut r = Rng::new(a.seed);
-    let mut out = Out::default();
-    out.buf.push_str(&format!("#rule {}\n", RULE));
-    let n_cases = if a.thorough { 600 } else { 60 };
-    for id in 0..n_cases {
-        let mut cr = r.fork();
-        let (kind, ops) = gen_case(id, &mut cr, &mut out);
-        run_case(&mut out, &Case { id, kind, ops });
-    }
-    // tamper stream: single-bit mutations of the handshake messages in flight (oracle only)
-    let n_tamper = if a.thorough { 4000 } else { 300 };
-    for id in 0..n_tamper {
-        let mut cr = r.fork();
-        let (kind, ops) = gen_tamper(&mut cr, &mut out);
-        run_case(&mut out, &Case { id: n_cases + id, kind, ops });
-    }
-    out.finish()
+    c02_gen::gen(a, &mut |out, case| run_case(out, case))
 }
+
+/// `C02_LOG=1`: rs-matter's log output on stderr while replaying (debugging aid)
+struct StderrLog;
+impl log::Log for StderrLog {
+    fn enabled(&self, _: &log::Metadata) -> bool {
+        true
+    }
+    fn log(&self, r: &log::Record) {
+        eprintln!("[{} {}] {}", now_ms(), r.level(), r.args());
+    }
+    fn flush(&self) {}
+}
+static STDERR_LOG: StderrLog = StderrLog;
 
 pub fn replay(a: &Args) -> String {
+    if std::env::var("C02_LOG").is_ok() {
+        let _ = log::set_logger(&STDERR_LOG);
+        log::set_max_level(log::LevelFilter::Debug);
+    }
     let text = std::fs::read_to_string(a.input.as_ref().expect("--in")).expect("read input");
     let mut out = Out::default();
     for c in parse_cases(&text) {
